@@ -59,6 +59,14 @@ func vhSnap(v interface{}) string {
 			}
 		}
 		return s + "}"
+	case map[interface{}]interface{}:
+		s := "X{" + strconv.Itoa(len(x)) + ":"
+		for _, k := range []interface{}{"k", 1, "a"} {
+			if e, ok := x[k]; ok {
+				s += vhSnap(k) + "=" + vhSnap(e) + ","
+			}
+		}
+		return s + "}"
 	case *vhS:
 		if x == nil {
 			return "*nil"
@@ -82,6 +90,8 @@ func vhC18Ctx() map[string]interface{} {
 		"mi":   map[string]int{"b": 2, "a": 1},
 		"st":   &vhS{A: a, B: 1, C: []interface{}{"z", "y"}},
 		"nest": []interface{}{[]interface{}{3, 1, 2}, map[string]interface{}{"k": []interface{}{"q", "p"}}},
+		// interface-keyed maps (what YAML decoders produce) inside generic containers
+		"deep": []interface{}{map[interface{}]interface{}{"k": "A", 1: "one"}, map[string]interface{}{"a": map[interface{}]interface{}{"k": "B"}}},
 		"i":    1, "j": 2,
 	}
 }
@@ -104,6 +114,11 @@ var vhC18Tpl = []string{
 	"{{ nest|first|sort|join(',') }}{{ nest|first|reverse|join(',') }}{{ nest|last|keys|join(',') }}{{ nosuch|default(xs)|reverse|join(',') }}{{ xs|raw|reverse|first }}",
 	"{{ m.k|default([])|sort|join(',') }}{{ st.C|default([])|reverse|join(',') }}{% set r = nest|first|sort %}{{ r|join(',') }}{% if nest|first|sort|first == 1 %}y{% endif %}{{ [xs]|first|reverse|join(',') }}{{ {'q': xs}|first|sort|join(',') }}",
 	"{% for v in nest|first|reverse %}{{ v }}{% endfor %}{% for v in xs|default([])|sort %}{{ v }}{% endfor %}{{ nest|first|sort|reverse|first }}{{ ss|default([])|sort|join(',') }}{{ is|default([])|reverse|join(',') }}",
+	// data that a filter cannot encode or convert as it stands (the templates may fail, the data stays)
+	"{{ deep|json_encode }}",
+	"{{ deep|first|json_encode }}{{ deep|last|json_encode }}",
+	"{{ deep|first|keys|join(',') }}{{ deep|last|keys|join(',') }}{{ deep|length }}{% for d in deep %}{% for k, v in d %}{{ k }}{% endfor %}{% endfor %}",
+	"{{ deep|first|merge({'z': 1})|length }}{{ deep|first|sort|length }}{{ deep|first|url_encode }}{{ dump(deep) }}",
 	// every construct that binds a name, binding the name of a map, list or struct the caller passed
 	"{% import 'lib' as m %}{{ m.f(1) }}{% import 'lib' as xs %}{{ xs.f(2) }}{% import 'lib' as st %}{% import 'lib' as mi %}",
 	"{% from 'lib' import f as m %}{{ m(1) }}{% from 'lib' import f as xs, g as nest %}{{ xs(2) }}{{ nest() }}",
@@ -130,10 +145,13 @@ func VH_C18_Frame() {
 	symMarkReadonly(ctx, "caller-context")
 	o1, e1 := e.Render("t", ctx)
 	symCover("rendered")
-	symAssert(e1 == nil, "renders")
+	mayFail := len(vhC18Tpl[t]) > 8 && vhC18Tpl[t][:8] == "{{ deep|" // filters that may refuse the data
+	if !mayFail {
+		symAssert(e1 == nil, "renders")
+	}
 	symAssert(vhSnap(ctx) == before, "caller-data-unchanged")
 	o2, e2 := e.Render("t", ctx)
-	symAssert(e2 == nil && o2 == o1, "second-render-sharing-the-data-equal")
+	symAssert((e2 == nil) == (e1 == nil) && o2 == o1, "second-render-sharing-the-data-equal")
 	symAssert(vhSnap(ctx) == before, "caller-data-unchanged-after-second-render")
 }
 
